@@ -40,3 +40,6 @@ GROUPS += [
           assumed=["qs/chgsense_basis: ILLlib_chgsense is an arbitrary-result stub (decided in lib/chgsense_b); 'ILLbasis_load accepts at-upper only for ranged rows' is the loader's rule (basis.c), decided for the loader in basis/load"])
     for sfx, defs, fn in [("", [], "QSchange_senses"), ("_1", ["FN_single"], "QSchange_sense")]
 ]
+
+GROUPS.append(Group("qs/params", "qs_params.c", tus=QS, model=MODEL, dfcc=False, kind="proved", functions=["QSset_param", "QSget_param"], props=["C07", "C06", "C17"],
+                    note="loop-free; every parameter code and every value (full int domain)"))
